@@ -1,0 +1,169 @@
+//go:build verif
+
+package verifh
+
+//@ package github.com/basecomplextech/spec/internal/verifh
+
+// Round trips (C10): decode(encode(v)) == (v, n, nil) and the two sizes agree, for every v.
+
+//@ func RoundTripBool
+//@   requires b != nil
+//@   modifies buffer.len at b
+//@   modifies buffer.obj at b
+//@   modifies uint8
+//@   ensures[C10] result3 == nil && result0 == v && result1 == result2 && result1 == 1
+
+//@ func RoundTripByte
+//@   requires b != nil
+//@   modifies buffer.len at b
+//@   modifies buffer.obj at b
+//@   modifies uint8
+//@   ensures[C10] result3 == nil && result0 == v && result1 == result2 && result1 == 2
+
+//@ func RoundTripInt16
+//@   requires b != nil
+//@   modifies buffer.len at b
+//@   modifies buffer.obj at b
+//@   modifies uint8
+//@   ensures[C10] result3 == nil && result0 == v && result1 == result2
+
+//@ func RoundTripInt32
+//@   requires b != nil
+//@   modifies buffer.len at b
+//@   modifies buffer.obj at b
+//@   modifies uint8
+//@   ensures[C10] result3 == nil && result0 == v && result1 == result2
+//@   canary[C10] result1 <= 3
+
+//@ func RoundTripInt64
+//@   requires b != nil
+//@   modifies buffer.len at b
+//@   modifies buffer.obj at b
+//@   modifies uint8
+//@   ensures[C10] result3 == nil && result0 == v && result1 == result2
+
+//@ func RoundTripUint16
+//@   requires b != nil
+//@   modifies buffer.len at b
+//@   modifies buffer.obj at b
+//@   modifies uint8
+//@   ensures[C10] result3 == nil && result0 == v && result1 == result2
+
+//@ func RoundTripUint32
+//@   requires b != nil
+//@   modifies buffer.len at b
+//@   modifies buffer.obj at b
+//@   modifies uint8
+//@   ensures[C10] result3 == nil && result0 == v && result1 == result2
+
+//@ func RoundTripUint64
+//@   requires b != nil
+//@   modifies buffer.len at b
+//@   modifies buffer.obj at b
+//@   modifies uint8
+//@   ensures[C10] result3 == nil && result0 == v && result1 == result2
+
+// Width changes (C10): same numeric value when representable, an error otherwise - never a wrapped value.
+
+//@ func WidenInt16To64
+//@   requires b != nil
+//@   modifies buffer.len at b
+//@   modifies buffer.obj at b
+//@   modifies uint8
+//@   ensures[C10] result3 == nil && result0 == v && result1 == result2
+
+//@ func NarrowInt64To32
+//@   requires b != nil
+//@   modifies buffer.len at b
+//@   modifies buffer.obj at b
+//@   modifies uint8
+//@   ensures[C10] -2147483648 <= v && v <= 2147483647 ==> result3 == nil && result0 == v && result1 == result2
+//@   ensures[C10] v < -2147483648 || v > 2147483647 ==> result3 != nil
+
+//@ func NarrowInt64To16
+//@   requires b != nil
+//@   modifies buffer.len at b
+//@   modifies buffer.obj at b
+//@   modifies uint8
+//@   ensures[C10] -32768 <= v && v <= 32767 ==> result3 == nil && result0 == v && result1 == result2
+//@   ensures[C10] v < -32768 || v > 32767 ==> result3 != nil
+
+//@ func NarrowInt32To16
+//@   requires b != nil
+//@   modifies buffer.len at b
+//@   modifies buffer.obj at b
+//@   modifies uint8
+//@   ensures[C10] -32768 <= v && v <= 32767 ==> result3 == nil && result0 == v && result1 == result2
+//@   ensures[C10] v < -32768 || v > 32767 ==> result3 != nil
+
+//@ func WidenUint16To64
+//@   requires b != nil
+//@   modifies buffer.len at b
+//@   modifies buffer.obj at b
+//@   modifies uint8
+//@   ensures[C10] result3 == nil && result0 == v && result1 == result2
+
+//@ func NarrowUint64To32
+//@   requires b != nil
+//@   modifies buffer.len at b
+//@   modifies buffer.obj at b
+//@   modifies uint8
+//@   ensures[C10] v <= 4294967295 ==> result3 == nil && result0 == v && result1 == result2
+//@   ensures[C10] v > 4294967295 ==> result3 != nil
+
+//@ func NarrowUint64To16
+//@   requires b != nil
+//@   modifies buffer.len at b
+//@   modifies buffer.obj at b
+//@   modifies uint8
+//@   ensures[C10] v <= 65535 ==> result3 == nil && result0 == v && result1 == result2
+//@   ensures[C10] v > 65535 ==> result3 != nil
+
+//@ func NarrowUint32To16
+//@   requires b != nil
+//@   modifies buffer.len at b
+//@   modifies buffer.obj at b
+//@   modifies uint8
+//@   ensures[C10] v <= 65535 ==> result3 == nil && result0 == v && result1 == result2
+//@   ensures[C10] v > 65535 ==> result3 != nil
+
+// Fixed binaries, bytes, strings
+
+//@ func RoundTripBin64
+//@   requires b != nil
+//@   modifies buffer.len at b
+//@   modifies buffer.obj at b
+//@   modifies uint8
+//@   ensures[C10] result3 == nil && result1 == result2 && (forall i :: 0 <= i && i < 8 ==> result0[i] == v[i])
+
+//@ func RoundTripBin128
+//@   requires b != nil
+//@   modifies buffer.len at b
+//@   modifies buffer.obj at b
+//@   modifies uint8
+//@   ensures[C10] result3 == nil && result1 == result2 && (forall i :: 0 <= i && i < 16 ==> result0[i] == v[i])
+
+//@ func RoundTripBin256
+//@   requires b != nil
+//@   modifies buffer.len at b
+//@   modifies buffer.obj at b
+//@   modifies uint8
+//@   ensures[C10] result3 == nil && result1 == result2 && (forall i :: 0 <= i && i < 32 ==> result0[i] == v[i])
+
+//@ func RoundTripBytes
+//@   requires b != nil && obj(v) != bobj(b)
+//@   modifies buffer.len at b
+//@   modifies buffer.obj at b
+//@   modifies uint8
+//@   ensures[C10] len(v) <= 2147483647 ==> result3 == nil && result1 == result2 && len(result0) == len(v)
+//@        && (forall i :: 0 <= i && i < len(v) ==> result0[i] == old(v[i]))
+//@   ensures[C10] len(v) > 2147483647 ==> result3 != nil
+
+//@ func RoundTripString
+//@   requires b != nil && obj(v) != bobj(b)
+//@   modifies buffer.len at b
+//@   modifies buffer.obj at b
+//@   modifies uint8
+//@   ensures[C10] len(v) <= 2147483647 ==> result3 == nil && result1 == result2 && len(result0) == len(v)
+//@        && (forall i :: 0 <= i && i < len(v) ==> result0[i] == old(v[i]))
+//@   ensures[C10] len(v) > 2147483647 ==> result3 != nil
